@@ -78,10 +78,21 @@ fn deinterleave(c: usize, bw: bool, ys: &[i64], ty: Ty) -> String {
     }))
 }
 
+/// the puncturer under test: built directly, or a clone (of a clone) of a built and already used object —
+/// the BER simulation hands `puncturer.clone()` to every worker
+fn mk_puncturer(p: &[bool], variant: usize) -> Puncturer {
+    let pu = Puncturer::new(p);
+    match variant % 3 {
+        0 => pu,
+        1 => pu.clone(),
+        _ => { let _ = pu.rate(); let c = pu.clone(); drop(pu); c.clone() }
+    }
+}
+
 fn puncture(p: &[bool], xs: &[i64], ty: Ty) -> String {
     let (p, xs) = (p.to_vec(), xs.to_vec());
     res(guarded(move || {
-        let pu = Puncturer::new(&p);
+        let pu = mk_puncturer(&p, xs.len() / p.len().max(1) + p.len());
         match ty {
             Ty::Gf2 => pu
                 .puncture(&Array1::from_iter(xs.iter().map(|&x| if x != 0 { GF2::one() } else { GF2::zero() })))
@@ -106,7 +117,7 @@ fn puncture(p: &[bool], xs: &[i64], ty: Ty) -> String {
 fn depuncture(p: &[bool], ys: &[i64], ty: Ty) -> String {
     let (p, ys) = (p.to_vec(), ys.to_vec());
     res(guarded(move || {
-        let pu = Puncturer::new(&p);
+        let pu = mk_puncturer(&p, ys.len() + p.len() + 1);
         match ty {
             Ty::F64 => pu
                 .depuncture(&ys.iter().map(|&x| x as f64).collect::<Vec<_>>())
@@ -232,7 +243,7 @@ pub fn run(ctx: &mut Ctx, replay: Option<&[String]>) {
         for bits in 0..(1u32 << plen) {
             let p: Vec<bool> = (0..plen).map(|i| bits >> i & 1 == 1).collect();
             let trues = p.iter().filter(|&&b| b).count();
-            ctx.emit(&format!("c15 rate {}", pat(&p)), &match guarded({ let p = p.clone(); move || Puncturer::new(&p).rate().to_bits() }) {
+            ctx.emit(&format!("c15 rate {}", pat(&p)), &match guarded({ let p = p.clone(); move || mk_puncturer(&p, bits as usize).rate().to_bits() }) {
                 Ok(b) => b.to_string(),
                 Err(_) => "panic".into(),
             }, trues > 0, &["rate"]);
